@@ -204,7 +204,7 @@ let blk a =
   match wres r with
   | None, h -> Some (h ^ " -")
   | Some bs, h ->
-    let back = (match dec_record strings contigs bs with
+    let back = (match dec_record strings contigs (z_of_int ns) bs with
       | None -> "Fail"
       | Some (((_, di), df), _) ->
         let show l cs =
